@@ -532,6 +532,53 @@ class CtxLog:
                 ctx.violation(key[0], key[1], tags=n)
 
 
+class RecCtx(CtxLog):
+    """stand-in for Ctx when ONE stored case is executed again (replay of a violation, regression corpus): records the violations,
+    ignores the counters"""
+
+    def __init__(self, seed=0):
+        import random
+        CtxLog.__init__(self, seed)
+        self.rng = random.Random(seed)
+        self.violations, self.disagreements = [], []
+        self.hist, self.extra = {}, {}
+        self.traces_validated = 0
+        self.evaluations = 0
+
+        class _Lean:
+            ok = True
+        self.lean = _Lean()
+
+    def quick(self):
+        return True
+
+    def violation(self, what, replay=None, tags=()):
+        self.violations.append((what, replay, list(tags)))
+
+    def disagreement(self, stream, case, a, b):
+        self.disagreements.append((stream, case, a, b))
+
+    def first(self):
+        return self.violations[0][0] if self.violations else None
+
+
+def run_regressions(ctx, prop, recheck):
+    """the regression corpus: stored failing inputs of past (seeded or repaired) defects, each executed again through the property's
+    own `recheck`; runs first"""
+    for e in load_corpus(prop):
+        if not isinstance(e, dict) or 'regress' not in e:
+            continue
+        kind, res = forked(recheck, e['replay'], timeout=180)
+        ctx.case({'stream': 'regression-corpus', 'origin': e['regress']})
+        ctx.count('stream:regression-corpus')
+        if kind == 'exception':
+            ctx.violation('regression corpus (%s): executing the stored input again raised: %s' % (e['regress'], res), e['replay'])
+        elif kind != 'ok':
+            ctx.incon('regression corpus: solver %s' % kind)
+        elif res:
+            ctx.violation('regression corpus (%s): %s' % (e['regress'], res), e['replay'])
+
+
 def forked(fn, *args, timeout=300):
     """Run fn(*args) in a forked child and return ('ok', result) | ('crash', signal or exit code) | ('timeout', None).
     Everything that calls the solver in-process goes through this: ECOS can die with a segmentation fault on degenerate data,
